@@ -127,6 +127,14 @@ def gen(rng, tier, dist):
         cs = [rng.choice(COLL_BIG) for _ in range(n)]
         out.append("collapse " + hx(b"".join(b"/" + c for c in cs)))
         bump(dist, "collapse-random-%d" % n)
+    # kept components LONGER than everything removed to their right (an in-place move whose source and
+    # destination overlap), and long removed ones next to short kept ones
+    LONG = [b"envelope", b"oscillator12", b"a_rather_long_component_name", b"x" * 40, b"ab", b"q"]
+    for _ in range(400 if tier == "quick" else 8000):
+        n = rng.randint(2, 7)
+        cs = [rng.choice(LONG + [b"..", b"..", b"a", b""]) for _ in range(n)]
+        out.append("collapse " + hx(b"".join(b"/" + c for c in cs)))
+        bump(dist, "collapse-long-components")
     # ---- wide tables: 17..40 children matching the needle at the queried location (std::sort
     # leaves its insertion-sort regime above 16 elements: the order then depends on the
     # comparators alone), with 'name/' entries, names below them, duplicates
